@@ -1,3 +1,6 @@
 import PopsModel.Model.Basic
 import PopsModel.Model.Date
 import PopsModel.Model.Schedule
+import PopsModel.Model.DatePred
+import PopsModel.Props.C07
+import PopsModel.Props.C08
